@@ -279,3 +279,31 @@ Proof.
   pose proof (HN i _ H') as Y. unfold hnum in *. change squash_min_attr with (S "hcount") in *.
   rewrite aget_Fa_other in Y by exact hcount_ne. exact Y.
 Qed.
+
+(** ---- the count: the squashed graph has as many atoms as the molecule, the bonded graph as many as the fragments
+    contain together *)
+Theorem share_vs_cut_count C D L aa gs' gd orig g' : wf_cut C -> wf_cut D ->
+  skeleton C aa gs' -> skeleton D aa gd -> adj_nodup gs' -> expands C D L orig ->
+  squash_atoms (gmap (bangify L) gs') = Ok g' ->
+  length g' = length (flat D) /\ length (gmap (bangify L) gs') = length (flat C).
+Proof.
+  intros WC WD SkC SkD Adj X Q.
+  pose proof (cut_skeleton_wf C WC aa gs' SkC) as Wf. pose proof (wf_graph_gmap (bangify L) _ Wf) as Wg.
+  destruct (squash_quotient _ g' Wg Q) as (Wg' & _).
+  destruct (share_vs_cut_skeletons C D WC WD L aa gs' gd SkC SkD Adj orig X g' Q) as (A & B & Ci & _).
+  pose proof (cut_skeleton_wf D WD aa gd SkD) as Wd.
+  assert (Lg : forall g, length g = length (node_keys g)) by (intros g; unfold node_keys; now rewrite map_length).
+  split.
+  - rewrite (Lg g'). transitivity (length (node_keys gd)); [|rewrite (sk_keys _ _ _ SkD), map_length, seq_length; reflexivity].
+    set (pi := pi_cut C D orig) in *.
+    assert (Nm : NoDup (map pi (node_keys g'))).
+    { clear A B. pose proof (wf_nodup _ Wg') as Nd. induction (node_keys g') as [|y l IH]; [constructor|]. cbn [map].
+      inversion Nd as [|? ? Hy Hl]; subst. constructor.
+      - intros Hin. apply in_map_iff in Hin as (z & Ez & Hz). apply Hy. rewrite (Ci y z); [exact Hz|now left|now right|now symmetry].
+      - apply IH; [|exact Hl]. intros a b Ha Hb. apply Ci; now right. }
+    rewrite <- (map_length pi (node_keys g')). apply Nat.le_antisymm.
+    + apply NoDup_incl_length; [exact Nm|]. intros a Ha. apply in_map_iff in Ha as (y & <- & Hy). apply has_node_keys. now apply A.
+    + apply NoDup_incl_length; [exact (wf_nodup _ Wd)|]. intros a Ha. apply has_node_keys in Ha. destruct (B a Ha) as (y & Hy & <-).
+      now apply in_map.
+  - rewrite Lg, node_keys_gmap, (sk_keys _ _ _ SkC), map_length, seq_length. reflexivity.
+Qed.
